@@ -343,10 +343,28 @@ static void run_all(std::index_sequence<K...>) {
 	run_n<EXTRA[NSET]>();
 }
 
+// ---- bitsets with static storage duration that are written while other namespace-scope objects are still being constructed
+// (CPU masks, feature flags): the constructors are constexpr, so like std::bitset they are constant-initialised and bits set by the
+// constructor of an *earlier* global are still set when main() starts.
+extern frg::bitset<70> g_early_bits; extern std::bitset<70> g_early_bits_ref;
+extern frg::bitset<64> g_early_bits_v; extern std::bitset<64> g_early_bits_v_ref;
+static struct EarlySetter { EarlySetter() { for(int i : {0, 3, 63, 64, 69}) { g_early_bits.set(i); g_early_bits_ref.set(i); } g_early_bits_v.flip(5); g_early_bits_v_ref.flip(5); } } g_early_setter;
+frg::bitset<70> g_early_bits; std::bitset<70> g_early_bits_ref;
+frg::bitset<64> g_early_bits_v{0xF0F0ull}; std::bitset<64> g_early_bits_v_ref{0xF0F0ull};
+static void static_init_case() {
+	begin_case("static-init", 0);
+	for(size_t i = 0; i < 70; i++) if(g_early_bits.test(i) != g_early_bits_ref.test(i)) { violation("C18:model:bitset:static-init", strf("bit %zu of a namespace-scope bitset<70> written by the constructor of an earlier global is %d when main() starts (std::bitset used the same way: %d)", i, (int)g_early_bits.test(i), (int)g_early_bits_ref.test(i))); break; }
+	for(size_t i = 0; i < 64; i++) if(g_early_bits_v.test(i) != g_early_bits_v_ref.test(i)) { violation("C18:model:bitset:static-init", strf("bit %zu of a namespace-scope bitset<64>{0xF0F0} flipped by the constructor of an earlier global differs from std::bitset when main() starts", i)); break; }
+	if(g_early_bits.count() != g_early_bits_ref.count()) violation("C18:model:bitset:static-init", "count() of a namespace-scope bitset written during static initialisation differs from std::bitset");
+	count("bitsets_written_during_static_initialisation", 2);
+	note_distinct(mix(0xE3, 1));
+}
+
 int main(int argc, char **argv) {
 	parse_args(argc, argv, "c18_bitset");
 	rec.rule = "bitset: a case is one operation sequence (constructor + ops) on frg::bitset<N> compared bit-by-bit with std::bitset<N> after every op; "
 		"distinct = hash of (N, op codes, parameters), counted only for sequences with >= 2 ops";
+	if(want_mode("static-init") && want_case(0)) static_init_case();
 	run_all(std::make_index_sequence<17>());
 	return finish();
 }
